@@ -154,10 +154,10 @@ def default_edge_types():
         ('scaled', 0.5, 0.0, 0.5, (('absolute_resolution', 0.0),)),
     ]
     strings = [('string', 0, 0, False), ('string', 0, 0, True), ('string', 3, None, False), ('string', 1, None, True),
-               ('string', 1, 1, False), ('string', 3, big, False), ('string', 0, big, True)]
+               ('string', 1, 1, False), ('string', 3, None, True)]     # None = no upper limit: built with maxchars=UNLIMITED
     blobs = [('blob', 0, 0), ('blob', 0, 1), ('blob', 1, 1), ('blob', 3, 255)]
     i09 = ('int', 0, 9)
-    arrays = [('array', i09, 1, 1), ('array', i09, 0, 1), ('array', i09, 0, 100), ('array', i09, 100, 100)[:3] + (3,),
+    arrays = [('array', i09, 1, 1), ('array', i09, 0, 1),
               ('array', strings[2], 0, 2), ('array', blobs[0], 0, 0), ('array', blobs[0], 1, 2), ('array', doubles[0], 0, 1)]
     others = [
         ('struct', (('a', i09), ('b', ('bool',))), ('a', 'b')),            # every member listed: equals the default "all"
